@@ -31,6 +31,7 @@ import (
 	"github.com/lindb/lindb/constants"
 	"github.com/lindb/lindb/flow"
 	v1 "github.com/lindb/lindb/index/v1"
+	"github.com/lindb/lindb/internal/verifhook"
 	"github.com/lindb/lindb/kv"
 	"github.com/lindb/lindb/kv/version"
 	"github.com/lindb/lindb/metrics"
@@ -303,6 +304,7 @@ func (ii *invertedIndex) getSeriesIDs(key uint32) (*roaring.Bitmap, error) {
 
 func (ii *invertedIndex) findSeriesIDsByKeys(keys *roaring.Bitmap) (*roaring.Bitmap, error) {
 	snapshot := ii.family.GetSnapshot()
+	verifhook.Yield("index.inverted.afterSnapshot")
 	defer snapshot.Close()
 
 	result := roaring.New()
@@ -425,6 +427,7 @@ func (fi *forwardIndex) put(tagKeyID, tagValueID, seriesID uint32) {
 
 func (fi *forwardIndex) findSeriesIDsForTag(tagKeyID tag.KeyID) (*roaring.Bitmap, error) {
 	snapshot := fi.family.GetSnapshot()
+	verifhook.Yield("index.forward.afterSnapshot")
 	defer snapshot.Close()
 
 	result := roaring.New()
